@@ -106,6 +106,7 @@ def run(ctx):
     check_pcgls(ctx, rs, sc, PCGLS, cuqi)
     check_fista(ctx, rs, sc, FISTA, ProjectNonnegative, ProjectBox, ProximalL1)
     check_lm(ctx, rs, sc, LM)
+    check_lm_long(ctx, rs, sc, LM)
     check_wrappers(ctx, rs, sc, S, L_BFGS_B, minimize, maximize, LS)
     check_malformed(ctx, rs, CGLS, PCGLS, FISTA)
     check_generic(ctx, rs, sc, cuqi, CGLS, PCGLS, FISTA, LM, LS, L_BFGS_B, minimize, maximize, ProximalL1)
@@ -279,7 +280,8 @@ def compare_cg(ctx, key, desc, out, solve_impl, on_refusal=None, kappa=1.0):
     is max(1e-9, 1e-13*kappa^4) (1e-9 up to kappa = 10; the generators keep kappa <= 20)."""
     tol = desc["tol"]
     ds = desc.get("dscale", 1.0)          # data scale: iterates are compared after division by it (relative comparison)
-    itol = max(TOL, 1e-13 * kappa ** 4)
+    # a start `far` times larger than the data leaves a cancellation error ~ far*eps*kappa^2 (relative to the data scale) in all later iterates
+    itol = max(TOL, 1e-13 * kappa ** 4, 1e-15 * desc.get("far_start", 1.0) * kappa ** 2)
     if out.startswith("err") or out == "bad-op":
         try:
             with quiet():
@@ -318,10 +320,22 @@ def compare_cg(ctx, key, desc, out, solve_impl, on_refusal=None, kappa=1.0):
         with quiet():
             xj, _ = solve_impl(j)
         # at the step where exact arithmetic terminates (gamma = 0) float CG has not converged to working precision yet
-        if not vclose(np.asarray(xj) / ds, np.asarray(trace[j]) / ds, 1e-6 if (j == k and gammas[k] == 0) else itol):
+        if not vclose(np.asarray(xj) / ds, np.asarray(trace[j]) / ds, max(1e-6, 1e-11 * desc.get("far_start", 1.0) * kappa) if (j == k and gammas[k] == 0) else itol):
             ctx.disagree(key + ":iterate", {**desc, "j": j}, trace[j], np.asarray(xj).tolist(), f"iterate {j} differs")
             break
     return True, np.asarray(xi, dtype=float), ki, (k, flag, x, gammas)
+
+
+def far_factor(rs, i, x0, tol):
+    """start far from the solution (every 3rd case): the iterate norm then shrinks by orders of magnitude while the
+    residual is still above its tolerance; the factor keeps the code's own `normx*tol >= 1` clause out of the way"""
+    nx = float(np.linalg.norm(x0))
+    if i % 3 != 2 or nx == 0:
+        return 1.0
+    if tol >= 1e-3:
+        e = math.floor(math.log2(0.3 / (tol * nx)))
+        return float(2.0 ** e) if e >= 3 else 1.0
+    return float(rs.choice([2.0 ** 14, 2.0 ** 17, 2.0 ** 20]))
 
 
 def check_cgls(ctx, rs, sc, CGLS):
@@ -343,7 +357,8 @@ def check_cgls(ctx, rs, sc, CGLS):
             tol, maxit = 1e-10, int(rs.randint(0, n + 1))
         else:
             tol, maxit = float(rs.choice([0.5, 0.1, 1e-2, 1e-3])), 60
-        meta.append((A, b, x0, shift, tol, maxit, sparse, mode, dscale))
+        far = far_factor(rs, i, x0, tol); x0 = x0 * far
+        meta.append((A, b, x0, shift, tol, maxit, sparse, mode, (dscale, far)))
         lines.append(f"cgls mat {qm(A)} {qv(b)} {qv(x0)} {q(shift)} {q(tol)} {maxit}")
         lines.append(f"cgls fun {qm(A)} {qm(A.T)} {qv(b)} {qv(x0)} {q(shift)} {q(tol)} {maxit}")
     # special inputs: start at the exact solution (gamma0 = 0), zero data, negative shift (indefinite), tol = 0, tol < 0
@@ -360,16 +375,16 @@ def check_cgls(ctx, rs, sc, CGLS):
     specials.append((A3, np.array([1.0, 2.0, 3.0]) * 1024, np.zeros(2), 0.25, 1e-3, 10, False, "large-scale"))
     for sp_ in specials:
         A, b, x0, shift, tol, maxit = sp_[:6]
-        meta.append(sp_ + (1.0,))
+        meta.append(sp_ + ((1.0, 1.0),))
         lines.append(f"cgls mat {qm(A)} {qv(b)} {qv(x0)} {q(shift)} {q(tol)} {maxit}")
         lines.append(f"cgls fun {qm(A)} {qm(A.T)} {qv(b)} {qv(x0)} {q(shift)} {q(tol)} {maxit}")
     outs = ctx.lean.drive(lines)
     hist = {}
-    for idx, (A, b, x0, shift, tol, maxit, sparse, mode, dscale) in enumerate(meta):
+    for idx, (A, b, x0, shift, tol, maxit, sparse, mode, (dscale, far)) in enumerate(meta):
         m, n = A.shape
         out_mat, out_fun = outs[2 * idx], outs[2 * idx + 1]
         desc = {"solver": "CGLS", "A": A.tolist(), "b": b.tolist(), "x0": x0.tolist(), "shift": shift, "tol": tol,
-                "maxit": maxit, "sparse": sparse, "mode": mode, "dscale": dscale}
+                "maxit": maxit, "sparse": sparse, "mode": mode, "dscale": dscale, "far_start": far}
         cls = f"{shape_class(m, n)}:{'shift' if shift != 0 else 'noshift'}"
         hist[cls] = hist.get(cls, 0) + 1
         Aop = sp.csr_matrix(A) if sparse else A
@@ -417,7 +432,7 @@ def check_cgls(ctx, rs, sc, CGLS):
             for j, rj in enumerate(rr):
                 with quiet():
                     xj, _ = CGLS(A, b.copy(), x0.copy(), j, tol, shift).solve()
-                if not vclose(rj / dscale, (b - A @ xj) / dscale, 1e-9):
+                if not vclose(rj / dscale, (b - A @ xj) / dscale, max(1e-9, 1e-13 * far)):     # far start: cancellation ~ far*eps in the recurred residual
                     ctx.fail(f"CGLS:mat:{cls}:residual-recurrence", {**desc, "j": j}, (b - A @ xj).tolist(), rj.tolist(),
                              "the recurred residual is not b - A x")
                     break
@@ -503,18 +518,20 @@ def check_pcgls(ctx, rs, sc, PCGLS, cuqi):
         else:
             P = np.eye(n) * 2.0
         shift = float(rs.choice([0.0, 0.0, 0.0, 0.5, 1.0]))
-        mode = ["converge", "converge", "truncate"][i % 3]
-        tol, maxit = (float(rs.choice([1e-8, 1e-10])), 60) if mode == "converge" else (1e-10, int(rs.randint(0, n + 1)))
+        mode = ["converge", "converge", "truncate", "loosetol"][i % 4]
+        tol, maxit = (float(rs.choice([1e-8, 1e-10])), 60) if mode == "converge" else \
+            ((1e-10, int(rs.randint(0, n + 1))) if mode == "truncate" else (float(rs.choice([0.1, 1e-2, 1e-3])), 60))
+        far = far_factor(rs, i, x0, tol); x0 = x0 * far
         spsolve_path = (i % 4 == 3)
-        meta.append((A, P, b, x0, shift, tol, maxit, sparse, mode, spsolve_path, dscale))
+        meta.append((A, P, b, x0, shift, tol, maxit, sparse, mode, spsolve_path, (dscale, far)))
         how = "solve" if spsolve_path else "inv"
         lines.append(f"pcgls mat {qm(A)} {how} {qm(P)} {qv(b)} {qv(x0)} {q(shift)} {q(tol)} {maxit}")
         lines.append(f"pcgls fun {qm(A)} {qm(A.T)} {how} {qm(P)} {qv(b)} {qv(x0)} {q(shift)} {q(tol)} {maxit}")
     outs = ctx.lean.drive(lines)
-    for idx, (A, P, b, x0, shift, tol, maxit, sparse, mode, spsolve_path, dscale) in enumerate(meta):
+    for idx, (A, P, b, x0, shift, tol, maxit, sparse, mode, spsolve_path, (dscale, far)) in enumerate(meta):
         m, n = A.shape
         desc = {"solver": "PCGLS", "A": A.tolist(), "P": P.tolist(), "b": b.tolist(), "x0": x0.tolist(), "shift": shift,
-                "tol": tol, "maxit": maxit, "sparse": sparse, "mode": mode, "spsolve": spsolve_path, "dscale": dscale}
+                "tol": tol, "maxit": maxit, "sparse": sparse, "mode": mode, "spsolve": spsolve_path, "dscale": dscale, "far_start": far}
         cls = f"{shape_class(m, n)}:{'shift' if shift != 0 else 'noshift'}"
         Aop = sp.csr_matrix(A) if sparse else A
         Psp = sp.csc_matrix(P)
@@ -522,7 +539,10 @@ def check_pcgls(ctx, rs, sc, PCGLS, cuqi):
         old = cuqi.config.MAX_DIM_INV
         try:
             if spsolve_path:
-                cuqi.config.MAX_DIM_INV = 0      # exercise the `spsolve` branch of _apply_Pinv
+                # exercise the `spsolve` branch of _apply_Pinv; the test is `dim < MAX_DIM_INV`: straddle it (0 and exactly dim)
+                cuqi.config.MAX_DIM_INV = 0 if idx % 8 == 3 else n
+            elif idx % 8 == 2:
+                cuqi.config.MAX_DIM_INV = n + 1  # just past the threshold: explicit inverse
             for form in ("mat", "fun"):
                 ctx.case(f"pcgls-{form}", {**desc, "form": form})
                 key = f"PCGLS:{form}:{cls}"
@@ -872,6 +892,142 @@ def lm_stop_oracle(ctx, key, desc, res, jac, x0, x, i, maxit, gradtol):
                  "LM returned with iterations left although the relative gradient test |J^T r|/|g0| <= gradtol does not hold")
 
 
+def ref_lm(res, jac, x0, maxit, gradtol, nu0):
+    """float reference of the LM algorithm (transcription of the Lean model `lmInit/lmStep/lmLoop`, dense solves).
+    Returns x, i and the per-iteration log [(x, nu, trial point, ratio, accepted, nu_after)]."""
+    x = np.array(x0, dtype=float); r = res(x); J = jac(x); g = J.T @ r
+    ng = np.linalg.norm(g); ng0 = ng; nu = float(ng); f = 0.5 * (r @ r); i = 0; n = len(x); log = []
+    while ng0 > 0 and (ng / ng0) > gradtol and i < maxit:
+        i += 1
+        s_ = np.linalg.solve(J.T @ J + nu * np.eye(n), g)
+        xt = x - s_; rt = res(xt); Jt = jac(xt); ft = 0.5 * (rt @ rt)
+        num = f - ft; den = (xt - x) @ g
+        ratio = -2 * (num / den) if (num != 0 and den != 0) else 0.0
+        x_before, nu_before = x, nu
+        if ratio < 0:
+            nu = max(2 * nu, nu0); acc = False
+        else:
+            x, r, f, J = xt, rt, ft, Jt; acc = True
+            if ratio < 0.25:
+                nu = max(2 * nu, nu0)
+            elif ratio > 0.75:
+                nu = 0.5 * nu
+                if nu < nu0:
+                    nu = 0.0
+        g = J.T @ r; ng = np.linalg.norm(g)
+        # last entry: |f - ftemp| relative to f — below ~1e-6 the float ratio is dominated by cancellation and its branch is not reliable
+        log.append((x_before, nu_before, xt, float(ratio), acc, nu, abs(num) / max(f if not acc else ft, abs(num), 1e-300)))
+    return x, i, log
+
+
+def check_lm_long(ctx, rs, sc, LM):
+    """long LM runs on strongly nonlinear small-residual problems: the damping reaches Gauss-Newton mode (nu -> 0 once
+    nu < nu0) and Gauss-Newton steps get rejected, so every branch of the nu update matters.
+    tie 1: single loop bodies of the exact Lean model from states of the float reference (`lmstep`);
+    tie 2: the implementation's trial points / iteration count / result against the float reference;
+    oracle (implementation only): no stalling (a rejected trial point is never tried again unchanged while nu0 > 0),
+    relative stationarity on return before maxit, and a result at maxit must not be non-stationary where the algorithm
+    as specified converges well within maxit."""
+    MAXIT = 400
+    probs, lines, owner = [], [], []
+    for i in range(24 * sc):
+        n = int(rs.randint(1, 4)); m = n + int(rs.randint(0, 3))
+        M = gen_matrix(rs, m, n, False)
+        Q = rs.randint(-4, 5, size=(m, n)) * (rs.rand(m, n) < 0.6) / 2.0
+        b = rs.randint(-4, 5, size=m).astype(float)
+        cs = float(rs.choice([2.0 ** -17, 2.0 ** -10, 2.0 ** -7, 2.0 ** -3, 1.0, 8.0]))
+        M, Q, b = M * cs, Q * cs, b * cs
+        x0 = rs.randint(-6, 7, size=n) / 2.0
+        nu0 = float(rs.choice([1e-3, 1e-3, 1e-3 * cs * cs, 0.5]))
+        sparse = bool(i % 2)
+        res = (lambda x, M=M, Q=Q, b=b: M @ x + Q @ (x * x) - b)
+        jac = (lambda x, M=M, Q=Q: M + 2 * Q * x[None, :])
+        try:
+            with np.errstate(all="ignore"):
+                xr, ir, log = ref_lm(res, jac, x0, MAXIT, 1e-8, nu0)
+        except np.linalg.LinAlgError:
+            continue
+        if not np.all(np.isfinite(xr)):
+            continue
+        probs.append((M, Q, b, cs, x0, nu0, sparse, res, jac, xr, ir, log))
+        # states for the single-step tie with the exact model: first steps, every rejected Gauss-Newton step, some others
+        pick = [j for j, e in enumerate(log) if (e[1] == 0.0 and not e[4])][:3] + [j for j, e in enumerate(log) if e[5] == 0.0][:2] + list(range(min(3, len(log))))
+        for j in sorted(set(pick)):
+            xb, nub = log[j][0], log[j][1]
+            lines.append(f"lmstep {qm(M)} {qm(Q)} {qv(b)} {qv(xb)} {q(nub)} {q(nu0)}"); owner.append((len(probs) - 1, j))
+    outs = ctx.lean.drive(lines)
+    cov = ctx.extra_cov.setdefault("lm_long", {"problems": 0, "gn_mode": 0, "gn_step_rejected": 0, "model_steps": 0, "ref_converged": 0})
+    # ---- tie 1: model loop body vs float reference at the same state
+    for (pi, j), out in zip(owner, outs):
+        M, Q, b, cs, x0, nu0, sparse, res, jac, xr, ir, log = probs[pi]
+        xb, nub, xt, ratio, acc, nua, relnum = log[j]
+        desc = {"solver": "LM", "M": M.tolist(), "Q": Q.tolist(), "b": b.tolist(), "x": np.asarray(xb).tolist(), "nu": nub, "nu0": nu0, "step": j}
+        ctx.case("lm-model-step", desc)
+        cov["model_steps"] += 1
+        if "|" not in out:
+            ctx.note(f"lmstep refused ({out}) at {desc}"); continue
+        xm, num = out.split("|"); xm = np.array([float(v) for v in pv(xm)]); num = float(Fraction(num))
+        x_after = xt if acc else xb
+        near = relnum < 1e-6 or min(abs(ratio), abs(ratio - 0.25), abs(ratio - 0.75)) < 1e-7 or (nua != 0 and abs(nua - nu0) < 1e-9 * nu0) or abs(0.5 * nub - nu0) < 1e-9 * nu0
+        if (not vclose(xm, x_after, 1e-8) or not close(num, nua, 1e-9)) and not near:
+            ctx.disagree("LM:model-step", desc, [xm.tolist(), num], [np.asarray(x_after).tolist(), nua], "exact model loop body differs from the float reference of the algorithm")
+            ctx.note("LM float reference and Lean model disagree: harness reference is wrong")
+    # ---- tie 2 + oracle on the implementation
+    for (M, Q, b, cs, x0, nu0, sparse, res, jac, xr, ir, log) in probs:
+        cov["problems"] += 1
+        cov["gn_mode"] += int(any(e[5] == 0.0 for e in log)); cov["gn_step_rejected"] += int(any(e[1] == 0.0 and not e[4] for e in log))
+        cov["ref_converged"] += int(ir < MAXIT)
+        desc = {"solver": "LM", "M": M.tolist(), "Q": Q.tolist(), "b": b.tolist(), "x0": x0.tolist(), "nu0": nu0, "gradtol": 1e-8, "maxit": MAXIT,
+                "sparse": sparse, "res_scale": cs, "reference_iterations": ir}
+        ctx.case("lm-long", desc)
+        key = f"LM:{'sparse' if sparse else 'dense'}:long-run"
+        trials = []
+        def res_rec(x):
+            trials.append(np.array(x, dtype=float)); return res(x)
+        jf = (lambda x: sp.csr_matrix(jac(x))) if sparse else jac
+        try:
+            with quiet(), np.errstate(all="ignore"):
+                xi, info = LM(res_rec, x0.copy(), jf, maxit=MAXIT, gradtol=1e-8, nu0=nu0, sparse=sparse).solve()
+        except Exception as e:
+            ctx.disagree(key, desc, [xr.tolist(), ir], repr(e)[:100], "implementation raises")
+            ctx.fail(key, desc, [xr.tolist(), ir], repr(e)[:100], "LM raises where the algorithm as specified runs through")
+            continue
+        xi = np.asarray(xi, dtype=float); ii = int(info["nfev"])
+        tr = trials[1:]                                    # first call is r(x0)
+        # tie: trial points in order (until a decision sits at a threshold), count, result
+        bad = None
+        for j in range(min(len(tr), len(log))):
+            if not vclose(tr[j], log[j][2], 1e-7 if not sparse else 1e-6):
+                bad = ("trial", j, log[j][2].tolist(), tr[j].tolist()); break
+            rj = log[j][3]
+            if min(abs(rj), abs(rj - 0.25), abs(rj - 0.75)) < 1e-6 or log[j][6] < 1e-6:
+                break                                      # decision at a threshold: later float paths may legitimately differ
+        else:
+            # the final crossing of gradtol may move by one iteration between LA.solve and spsolve: a count difference matters
+            # only if it is larger than one or the returned points differ
+            if ii != ir and (abs(ii - ir) > 1 or not vclose(xi, xr, 1e-6)):
+                bad = ("iterations", None, ir, ii)
+        if bad:
+            ctx.disagree(key, {**desc, "first_difference": bad[0], "at": bad[1]}, bad[2], bad[3], "implementation's LM run differs from the algorithm as specified (reference)")
+        # oracle 1: never the same rejected trial point twice in a row (after a rejection nu strictly grows when nu0 > 0)
+        g0 = np.linalg.norm(jac(x0).T @ res(x0))
+        for j in range(len(tr) - 1):
+            # (a step that has shrunk below the float resolution of x — trial point == current point — is the rounding floor, not a stall)
+            if nu0 > 0 and np.array_equal(tr[j], tr[j + 1]) and np.linalg.norm(tr[j] - xi) > 1e-9 * (1 + np.linalg.norm(xi)) \
+                    and np.linalg.norm(jac(xi).T @ res(xi)) > 1e-6 * g0:
+                ctx.fail(key, {**desc, "stalled_at_iteration": j + 1, "trial_point": tr[j].tolist()}, "a rejected step is followed by a different (more damped) trial step",
+                         "identical trial point repeated", "LM stalls: the same rejected step is tried again and again, the returned point is not stationary")
+                break
+        # oracle 2: relative stationarity on return before maxit
+        lm_stop_oracle(ctx, key, desc, res, jac, x0, xi, ii, MAXIT, 1e-8)
+        # oracle 3: at maxit with a non-stationary point although the algorithm as specified converges well within maxit
+        if ii >= MAXIT and ir <= MAXIT // 2 and np.all(np.isfinite(xi)):
+            g = np.linalg.norm(jac(xi).T @ res(xi))
+            if g > 1e-6 * g0:
+                ctx.fail(key, desc, f"stationary point after ~{ir} iterations (|J^T r| <= 1e-8*|g0|)", [xi.tolist(), float(g / g0)],
+                         "LM uses up all iterations and returns a non-stationary point on a problem where the algorithm converges")
+
+
 def oracle_lm(ctx, key, desc, res, jac, jf, x0, nu0, sparse, LM):
     g0 = np.linalg.norm(jac(x0).T @ res(x0))
     if g0 == 0:
@@ -990,6 +1146,7 @@ def check_wrappers(ctx, rs, sc, S, L_BFGS_B, minimize, maximize, LS):
                 ctx.fail("LS:jacfun-none:raises", d, ref["x"].tolist(), repr(e)[:120],
                          "LS with the documented default jacfun=None raises instead of returning SciPy's result")
     check_wrapper_kwargs(ctx, rs, sc, S, minimize, maximize)
+    check_lbfgsb_kwargs(ctx, rs, sc, L_BFGS_B)
     # ---- L_BFGS_B translation table with a scripted SciPy (all warnflags), against the model's table
     orig = S.fmin_l_bfgs_b
     try:
@@ -1014,6 +1171,55 @@ def check_wrappers(ctx, rs, sc, S, L_BFGS_B, minimize, maximize, LS):
                     ctx.fail("L_BFGS_B:table", d, exp, got, "wrapper does not pass SciPy's result through unchanged")
     finally:
         S.fmin_l_bfgs_b = orig
+
+
+def check_lbfgsb_kwargs(ctx, rs, sc, L_BFGS_B):
+    """every keyword of fmin_l_bfgs_b that L_BFGS_B forwards must arrive: non-quadratic problem with more variables than
+    the memory length, each keyword alone and combined, against the direct SciPy call (every returned field)"""
+    for rep_ in range(1 * sc):
+        n = int(rs.randint(6, 11))
+        w = rs.randint(1, 4, size=n).astype(float)
+        def f(x, w=w):            # Rosenbrock-type chain, scaled
+            return float(np.sum(10.0 * w[:-1] * (x[1:] - x[:-1] ** 2) ** 2 + (1 - x[:-1]) ** 2))
+        def g(x, w=w):
+            gr = np.zeros_like(x)
+            gr[:-1] += -40.0 * w[:-1] * (x[1:] - x[:-1] ** 2) * x[:-1] - 2 * (1 - x[:-1])
+            gr[1:] += 20.0 * w[:-1] * (x[1:] - x[:-1] ** 2)
+            return gr
+        fa = lambda x, a, w=w: a * f(x)
+        ga = lambda x, a, w=w: a * g(x)
+        x0 = rs.randint(-2, 3, size=n) / 2.0
+        bnds = [(-1.5, 0.75)] * n
+        kws = [{}, {"m": 3}, {"m": 17}, {"pgtol": 1e-10}, {"factr": 10.0}, {"maxfun": 25}, {"maxiter": 7}, {"maxls": 3}, {"bounds": bnds},
+               {"m": 3, "pgtol": 1e-10, "factr": 10.0}, {"m": 4, "bounds": bnds, "maxiter": 30, "maxls": 10}, {"epsilon": 1e-6}, {"callback": "CB"}, {"args": (2.0,)}]
+        for kw in kws:
+            for withgrad in (True, False):
+                if "epsilon" in kw and withgrad:
+                    continue
+                desc = {"wrapper": "L_BFGS_B", "kwargs": {k: (v if k != "bounds" else "box") for k, v in kw.items()}, "grad": withgrad, "n": n, "x0": x0.tolist(), "w": w.tolist()}
+                ctx.case("wraplb-kwargs", desc)
+                key = "L_BFGS_B:kwargs:" + ("+".join(kw) if kw else "none")
+                F, Gd = (fa, ga) if "args" in kw else (f, g)
+                logs = ([], [])
+                def mk(kw, log):
+                    k2 = dict(kw)
+                    if k2.get("callback") == "CB":
+                        k2["callback"] = lambda xk: log.append(np.array(xk, dtype=float).copy())
+                    return k2
+                try:
+                    with quiet():
+                        ref = sopt.fmin_l_bfgs_b(F, x0.copy(), fprime=Gd if withgrad else None, approx_grad=0 if withgrad else 1, **mk(kw, logs[0]))
+                        sol, info = L_BFGS_B(F, x0.copy(), gradfunc=Gd if withgrad else None, **mk(kw, logs[1])).solve()
+                except Exception as e:
+                    ctx.fail(key, desc, "SciPy's result", repr(e)[:100], "wrapper raises for a keyword SciPy accepts"); continue
+                bad = [nm for nm, a, b_ in (("x", sol, ref[0]), ("func", info["func"], ref[1]), ("grad", info["grad"], ref[2]["grad"]),
+                                            ("nit", info["nit"], ref[2]["nit"]), ("nfev", info["nfev"], ref[2]["funcalls"])) if not same_deep(a, b_)]
+                if len(logs[0]) != len(logs[1]) or any(not np.array_equal(u, v) for u, v in zip(*logs)):
+                    bad.append("callback")
+                if bad:
+                    ctx.disagree(key, desc, [np.asarray(ref[0]).tolist(), ref[2]["nit"], ref[2]["funcalls"]], [np.asarray(sol).tolist(), info["nit"], info["nfev"]], "fields differing: " + ",".join(bad))
+                    ctx.fail(key, desc, [np.asarray(ref[0]).tolist(), float(ref[1]), ref[2]["nit"], ref[2]["funcalls"]], [np.asarray(sol).tolist(), float(info["func"]), info["nit"], info["nfev"]],
+                             "L_BFGS_B does not return what fmin_l_bfgs_b returns for the same keyword arguments (a keyword is lost or renamed)")
 
 
 def same_deep(a, b):
@@ -1250,7 +1456,8 @@ def as_kind(v, kind):
         return [int(t) for t in v]
     if kind == "0d":
         return np.array(float(v.ravel()[0]))
-    return v.astype({"int64": np.int64, "int32": np.int32, "float32": np.float32, "bool": bool, "float64": float}[kind])
+    return v.astype({"int64": np.int64, "int32": np.int32, "float32": np.float32, "bool": bool, "float64": float,
+                     "uint8": np.uint8, "int8": np.int8, "float16": np.float16}[kind])
 
 
 def check_generic(ctx, rs, sc, cuqi, CGLS, PCGLS, FISTA, LM, LS, L_BFGS_B, minimize, maximize, ProximalL1):
@@ -1305,28 +1512,32 @@ def check_generic(ctx, rs, sc, cuqi, CGLS, PCGLS, FISTA, LM, LS, L_BFGS_B, minim
                 return None
             x = np.asarray(r[0]); k = int(r[1]["nfev"]) if isinstance(r[1], dict) else int(r[1])
             retained.append((f"{name}:{tag}:{kind}", r[0], np.asarray(r[0]).tobytes(), desc))
-            if x.dtype != np.float64 or k != base[name][1] or not vclose(x.astype(float), base[name][0], 1e-9):
+            # another memory layout of A / an out= buffer takes another BLAS path: rounding may move the abstol/tol crossing by an iteration
+            same_path = not ((tag == "layout" and kind.startswith("A-")) or tag == "same-object-operator")
+            # LM hands back the x0 object itself when no step is taken (`x = self.x0`): dtype / identity of the start, values judged only
+            lm_noop = (name == "LM" and base[name][1] == 0)
+            if (x.dtype != np.float64 and not lm_noop) or (same_path and k != base[name][1]) or not vclose(x.astype(float), base[name][0], 1e-9 if same_path else 1e-8):
                 ctx.fail(f"{name}:{tag}:{kind}:" + ("precision" if precision else "differs"), desc, [base[name][0].tolist(), base[name][1], "float64"],
                          [x.tolist(), k, str(x.dtype)], "result differs from the one for the float64 version of the same numbers")
             return r
 
         # ---- G1: dtypes / containers of x0, b, A; G2: the passed objects are untouched
         for name, run_ in list(solvers.items()) + [("LM", None)]:
-            for kind in ("int64", "int32", "float32", "bool", "list"):
+            for kind in ("int64", "int32", "float32", "bool", "list", "uint8", "int8", "float16"):    # narrow types wrap / are logical
                 if kind == "list" and name in ("CGLS", "PCGLS"):
                     continue                                          # documented as ndarray; CGLS raises TypeError loudly (noted in docs)
                 xk = as_kind(x0, kind); Ak, bk = A.copy(), b.copy()
                 before = snap([Ak, bk, xk, Psp])
                 if name == "LM":
-                    judge(name, "x0-dtype", kind, lambda: LM(resf, xk, jacf, maxit=200, sparse=False).solve(), precision=(kind == "float32"))
+                    judge(name, "x0-dtype", kind, lambda: LM(resf, xk, jacf, maxit=200, sparse=False).solve(), precision=(kind in ("float32", "float16")))
                 else:
-                    judge(name, "x0-dtype", kind, lambda: run_(Ak, bk, xk), precision=(kind == "float32"))
+                    judge(name, "x0-dtype", kind, lambda: run_(Ak, bk, xk), precision=(kind in ("float32", "float16")))
                 if snap([Ak, bk, xk, Psp]) != before:
                     ctx.fail(f"{name}:mutates-argument", {**desc0, "solver": name, "kind": kind}, "A, b, x0, P untouched", "changed",
                              "solver modifies an object owned by the caller")
             if name == "LM":
                 continue
-            for kind in ("int64", "float32", "list"):
+            for kind in ("int64", "float32", "list", "int8", "float16"):
                 bk = as_kind(b, kind); Ak, xk = A.copy(), x0.copy()
                 before = snap([Ak, bk, xk, Psp])
                 judge(name, "b-dtype", kind, lambda: run_(Ak, bk, xk))
@@ -1427,7 +1638,9 @@ def check_generic(ctx, rs, sc, cuqi, CGLS, PCGLS, FISTA, LM, LS, L_BFGS_B, minim
                     r1 = obj.solve(); r1 = (np.array(r1[0], copy=True), r1[1])
                     r2 = obj.solve()
                     ok_repeat = eq(r1, r2)
-                    r2[0][...] = 123.0                               # mutate the returned array: must not change a later solve
+                    lm_noop = (name == "LM" and r1[1]["nfev"] == 0)     # LM returns the x0 object itself when no step is taken (observation)
+                    if not lm_noop:
+                        r2[0][...] = 123.0                           # mutate the returned array: must not change a later solve
                     r3 = obj.solve()
                     ok_mut = eq(r1, r3)
                     bw[...] = b2; xw[...] = x02                    # in-place update of the SAME argument arrays
@@ -1542,7 +1755,7 @@ def check_generic(ctx, rs, sc, cuqi, CGLS, PCGLS, FISTA, LM, LS, L_BFGS_B, minim
         R = lambda x, B=B, c=c: B @ np.atleast_1d(np.asarray(x, dtype=float)) - c
         Jr = lambda x, B=B: B
         x0 = rs.randint(0, 2, size=n).astype(float); x0[0] = 1.0
-        for kind in ("float64", "int64", "int32", "bool", "float32", "list") + (("0d",) if n == 1 else ()):
+        for kind in ("float64", "int64", "int32", "bool", "float32", "list", "uint8", "float16") + (("0d",) if n == 1 else ()):
             for wname in ("minimize", "maximize", "L_BFGS_B", "LS"):
                 xk = as_kind(x0, kind)
                 desc = {"wrapper": wname, "x0": x0.tolist(), "x0_kind": kind, "B": B.tolist(), "c": c.tolist()}
@@ -1572,10 +1785,12 @@ def check_generic(ctx, rs, sc, cuqi, CGLS, PCGLS, FISTA, LM, LS, L_BFGS_B, minim
                     ctx.fail(f"{wname}:mutates-argument", desc, "x0 untouched", "changed", "wrapper modifies the caller's start vector")
                 retained.append((f"{wname}:x0-dtype:{kind}", sol, np.asarray(sol).tobytes(), desc))
                 sol = np.asarray(sol)
-                todo = [("same-start", refs[0])] + ([("float64-start", refs[1])] if kind != "float32" else [])
+                todo = [("same-start", refs[0])] + ([("float64-start", refs[1])] if kind not in ("float32", "float16") else [])
                 for tag, ref in todo:
                     bad = []
-                    if sol.dtype != np.asarray(ref["x"]).dtype or not same_deep(sol, ref["x"]):
+                    # dtype is demanded against SciPy's own answer for the same start (SciPy itself hands back an integer start
+                    # unchanged when it is already optimal); against the float64 start the numbers must agree
+                    if (tag == "same-start" and sol.dtype != np.asarray(ref["x"]).dtype) or not same_deep(sol.astype(float), np.asarray(ref["x"], dtype=float)):
                         bad.append(("x", str(np.asarray(ref["x"]).tolist())[:80] + " " + str(np.asarray(ref["x"]).dtype), str(sol.tolist())[:80] + " " + str(sol.dtype)))
                     gotm = {"fun": info["func"], "jac": info.get("grad", info.get("jac")), "nit": info.get("nit"), "nfev": info["nfev"]}
                     for fld in ("fun", "jac", "nit", "nfev"):
